@@ -18,7 +18,10 @@ CASE_TYPE = 'c04_case'
 CHECK = 'c04_check'
 SHOW = 'c04_show'
 SHARD = 40
-RULE = ('case = (table, back-end, algorithm in CbO/Lindig/default/Sofia(L_max=1000), shuffled name ids); the four '
+RULE = ('case = (table, back-end, build path [from_context CbO/Lindig/default/Sofia(L_max=1000), lindig_algorithm '
+        'lattice, ConceptLattice(shuffled list), grown by add()], shuffled name ids, recorded warm-up of 0-3 order '
+        'queries, label reading order attributes-first/objects-first/mixed, optional history labels -> remove -> '
+        '(labels) -> add back -> labels); on the final lattice the four '
         'label functions and ancestors()/descendants()/leq_elements()/<= for every concept (pair), the visualizer '
         'label for every concept, the table rebuilt from labels + order through each of the four order oracles; non-trivial = at least 4 concepts, not a chain, and some node shared by two '
         'objects or two attributes or carrying no label')
@@ -35,31 +38,91 @@ def expected_label(new_intent, new_extent, flg_i, max_i, flg_e, max_e):
     return '\n\n'.join([short(new_intent, flg_i, max_i), short(new_extent, flg_e, max_e)])
 
 
-def run_impl(case):
-    def go():
-        from fcapy.visualizer.line_visualizers import LineVizNx
-        r = random.Random(case['qseed'])
-        K, L = base.build_lattice(case)
-        n = len(L)
-        h, w = len(case['table']), len(case['table'][0])
-        out = {'concepts': base.concept_list(L)}
-        order = list(range(n))
-        r.shuffle(order)
-        nei, nii, ne, ni, anc = [None] * n, [None] * n, [None] * n, [None] * n, [None] * n
-        label_ok = True
-        for i in order:
-            a, b = L.get_concept_new_extent_i(i), L.get_concept_new_intent_i(i)
-            c, d = L.get_concept_new_extent(i), L.get_concept_new_intent(i)
-            nei[i], nii[i] = canon(a), canon(b)
-            ne[i] = sorted(int(s[1:]) for s in c)
-            ni[i] = sorted(int(s[1:]) for s in d)
-            anc[i] = canon(L.ancestors(i))
+def read_labels(L, r, label_order, check_viz=True):
+    """Read the four label functions of every concept, attributes first / objects first / mixed."""
+    from fcapy.visualizer.line_visualizers import LineVizNx
+    n = len(L)
+    te = [('e', i) for i in range(n)]
+    ti = [('i', i) for i in range(n)]
+    r.shuffle(te)
+    r.shuffle(ti)
+    if label_order == 'attrs_first':
+        tasks = ti + te
+    elif label_order == 'objs_first':
+        tasks = te + ti
+    else:
+        tasks = te + ti
+        r.shuffle(tasks)
+    nei, nii, ne, ni = [None] * n, [None] * n, [None] * n, [None] * n
+    raw_e, raw_i = [None] * n, [None] * n
+    for kind, i in tasks:
+        if kind == 'e':
+            nei[i] = canon(L.get_concept_new_extent_i(i))
+            raw_e[i] = L.get_concept_new_extent(i)
+            ne[i] = sorted(int(s[1:]) for s in raw_e[i])
+        else:
+            nii[i] = canon(L.get_concept_new_intent_i(i))
+            raw_i[i] = L.get_concept_new_intent(i)
+            ni[i] = sorted(int(s[1:]) for s in raw_i[i])
+    label_ok = True
+    if check_viz:
+        for i in range(n):
             f1, f2 = r.random() < 0.5, r.random() < 0.5
-            m1, m2 = r.randint(0, 4), r.randint(0, 4)
+            m1 = r.randint(0, 4)
+            m2 = r.choice([m for m in range(5) if m != m1])     # DIFFERENT limits for intent and extent
+            c, d = raw_e[i], raw_i[i]
             if LineVizNx.concept_lattice_label_func(i, L) != expected_label(d, c, True, 2, True, 2):
                 label_ok = False
             if LineVizNx.concept_lattice_label_func(i, L, f1, m1, f2, m2) != expected_label(d, c, f1, m1, f2, m2):
                 label_ok = False
+    return nei, nii, ne, ni, label_ok
+
+
+def run_history(L, history, r, label_order):
+    """labels -> remove -> (labels) -> add back -> ...; whatever is still removed at the end is added back."""
+    removed = []
+    for step in history:
+        if step == 'labels':
+            read_labels(L, r, r.choice(LABEL_ORDERS), check_viz=False)
+        elif step[0] == 'rem':
+            inner = [i for i in range(len(L)) if i not in (L.top, L.bottom)]
+            if not inner:
+                continue
+            i = inner[step[1] % len(inner)]
+            c = L[i]
+            if step[2] == 'i':
+                del L[i]
+            else:
+                L.remove(c)
+            removed.append(c)
+        elif step[0] == 'add' and removed:
+            L.add(removed.pop(step[1] % len(removed)), fill_up_cache=bool(step[2]))
+    while removed:
+        L.add(removed.pop(), fill_up_cache=r.random() < 0.7)
+
+
+LABEL_ORDERS = ['attrs_first', 'objs_first', 'mixed']
+
+
+def run_impl(case):
+    def go():
+        r = random.Random(case['qseed'])
+        K, L = base.build_lattice(case)
+        if case.get('history'):
+            run_history(L, case['history'], r, case.get('label_order', 'mixed'))
+        n = len(L)
+        h, w = len(case['table']), len(case['table'][0])
+        # recorded warm-up: a few order queries before any label is read (partly filled caches)
+        for rel, raw in case.get('warm') or []:
+            if rel == 'children_top':
+                L.children(L.top)
+            elif rel == 'parents_bottom':
+                L.parents(L.bottom)
+            else:
+                getattr(L, rel)(raw % n)
+        out = {'concepts': base.concept_list(L)}
+        nei, nii, ne, ni, label_ok = read_labels(L, r, case.get('label_order', 'mixed'))
+        anc = [canon(L.ancestors(i)) for i in range(n)]
         desc = [canon(L.descendants(i)) for i in range(n)]
         leq = [[bool(L.leq_elements(a, b)) for b in range(n)] for a in range(n)]
         cle = [[bool(L[a] <= L[b]) for b in range(n)] for a in range(n)]
@@ -80,12 +143,12 @@ def run_impl(case):
         else:
             out['rebuilt'] = []
         return out
-    return list(guarded(go, timeout_s=60))
+    return list(guarded(go, timeout_s=20))
 
 
 def to_coq(case, out):
     t = coq(case['table'])
-    algo = base.ALGO_CODE[case['algo']]
+    algo = base.build_code({'algo': case['algo'], 'build': case.get('build', 'ctx'), 'ops': case.get('history')})
     on, an = coq(case['onames']), coq(case['anames'])
     if out[0] != 'ok':
         return 'Build_c04_case %s %d %d [] %s %s [] [] [] [] [] [] [] [] [] false' % (
@@ -97,10 +160,37 @@ def to_coq(case, out):
         coq(o['rebuilt']), coq(bool(o['label_ok'])))
 
 
-def _mk(rng, t, backend, algo, kind=''):
+WARM = list(base.REL) + ['children_top', 'parents_bottom']
+
+
+def random_warm(rng):
+    return [[rng.choice(WARM), rng.randrange(1000)] for _ in range(rng.choice([0, 0, 1, 1, 2, 3]))]
+
+
+def random_history(rng):
+    k = rng.randint(1, 2)
+    hist = ['labels']
+    for _ in range(k):
+        hist.append(['rem', rng.randrange(1000), rng.choice(['i', 'v'])])
+        if rng.random() < 0.6:
+            hist.append('labels')
+    for _ in range(rng.randint(0, k)):
+        hist.append(['add', rng.randrange(1000), rng.random() < 0.7])
+        if rng.random() < 0.4:
+            hist.append('labels')
+    return hist
+
+
+def _mk(rng, t, backend, algo, kind='', build=None, history=None):
     h, w = len(t), len(t[0])
+    if build is None:
+        build = rng.choice(['ctx', 'ctx', 'ctx'] + base.BUILDS[1:])
+    if build != 'ctx' and algo not in ('CbO', 'Sofia'):
+        algo = 'CbO'
     return {'table': t, 'backend': backend, 'algo': algo, 'qseed': rng.randrange(10 ** 6), 'kind': kind,
-            'onames': rng.sample(range(60), h), 'anames': rng.sample(range(60), w)}
+            'onames': rng.sample(range(60), h), 'anames': rng.sample(range(60), w),
+            'build': build, 'bseed': rng.randrange(10 ** 6), 'warm': random_warm(rng),
+            'label_order': rng.choice(LABEL_ORDERS), 'history': history or []}
 
 
 def generate(rng, tier):
@@ -112,12 +202,25 @@ def generate(rng, tier):
     if tier == 'thorough':
         for k, t in enumerate(small):
             for a, algo in enumerate(['CbO', None]):
-                cases.append(_mk(rng, t, BACKENDS[(k + a) % 3], algo, 'exhaustive'))
-        n_rand = 4000
+                cases.append(_mk(rng, t, BACKENDS[(k + a) % 3], algo, 'exhaustive', build='ctx'))
+        n_rand, n_hist = 4000, 1500
     else:
         for t in rng.sample(small, 150):
             cases.append(_mk(rng, t, rng.choice(BACKENDS), rng.choice(ALGOS), 'exhaustive'))
-        n_rand = 700
+        n_rand, n_hist = 600, 160
+    # the history stream: labels -> remove -> (labels) -> add back -> labels -> rebuild
+    shapes = list(base.NONGRADED) + [(t, k) for t, k in base.forced_tables() if k in ('duprow', 'dupcol', 'contranominal')]
+    for t, kind in shapes:
+        for _ in range(2):
+            cases.append(_mk(rng, [list(r_) for r_ in t], rng.choice(BACKENDS), rng.choice(ALGOS), kind,
+                             history=random_history(rng)))
+    made = 0
+    while made < n_hist:
+        t, kind = base.random_table(rng, 'quick')
+        if not 5 <= base.n_concepts(t) <= 26:
+            continue
+        cases.append(_mk(rng, t, rng.choice(BACKENDS), rng.choice(ALGOS), kind, history=random_history(rng)))
+        made += 1
     made = 0
     while made < n_rand:
         t, kind = base.random_table(rng, tier)
@@ -165,11 +268,20 @@ def nontrivial(case):
 
 def stats(case):
     d = base.stats(case)
+    d['warm'] = len(case.get('warm') or [])
+    d['label_order'] = case.get('label_order', '')
+    d['history'] = len(case.get('history') or [])
     return d
 
 
 def shrink(case):
     out = []
+    for key in ('history', 'warm'):
+        v = case.get(key) or []
+        for i in range(len(v)):
+            c = dict(case)
+            c[key] = v[:i] + v[i + 1:]
+            out.append(c)
     for c in gen.shrink_table_case(case):
         c = dict(c)
         h, w = len(c['table']), len(c['table'][0])
